@@ -37,7 +37,7 @@ use std::task::{Poll, Waker};
 
 pub const META: Meta = Meta {
     level: "model_checking",
-    rule: "units = muxer configuration (mplex Block max_buffer_len 1 split 2; mplex Block max_buffer_len 2 split 3; mplex ResetStream buffer 32 split 2; yamux default) x operation script (1-2 substreams per side quick, up to 3 thorough; open/write/flush/close/read/drop orders incl. writer-reset and reader-drop); per unit every execution with <= bound deviations (bound 2 quick / 3 thorough for yamux, 3 / 4 for mplex; 1-byte reads, 1-byte writes, injected Pending on read/write/flush of the shared connection, non-round-robin task choice). Non-trivial = executions with >= 1 deviation, distinct by (unit, choice sequence).",
+    rule: "units = muxer configuration (mplex Block max_buffer_len 1 split 2; mplex Block max_buffer_len 2 split 3; mplex ResetStream buffer 32 split 2; yamux default) x operation script (1-2 substreams per side quick, up to 3 thorough; open/write/flush/close/read/drop orders incl. writer-reset and reader-drop); per unit every execution with <= bound deviations (bound 2 quick / 3 thorough; 1-byte reads, 1-byte writes, injected Pending on read/write/flush of the shared connection, non-round-robin task choice). Non-trivial = executions with >= 1 deviation, distinct by (unit, choice sequence).",
     explanation: "E1 stateless DFS with deviation bound over the real muxers joined by an in-memory pipe; each execution with the virtual clock and the entropy stream reset (any entropy consumption by yamux is a machinery error; fresh-thread isolation available as cross-check); oracle from the operation log: per handle the bytes read are a prefix of the paired peer handle's written bytes (tags), complete at EOF after a completed close, EOF only after close/drop, no foreign tag, no error on clean streams, no stuck execution.",
     assumptions: &[
         "poll-granularity interleaving on one thread; one driver task per endpoint calls poll_inbound/poll_outbound/poll (as libp2p-swarm does), substreams live in their own tasks",
@@ -742,9 +742,6 @@ pub fn run(ctx: &Ctx) -> Outcome {
             // every worker takes its stripe of every unit (see `explore_part`)
             let _ = i;
             let (mname, sname) = (MUXERS[*mi].0, scs[*si].name);
-            // mplex executions have few choice points (it only touches the connection at
-            // frame / flush granularity), so it gets one more deviation than yamux
-            let bound = if matches!(MUXERS[*mi].1, Mx::Mplex { .. }) { bound + 1 } else { bound };
             let (st, viol) = explore_part(bound, cap, ctx.worker, body(*mi, *si, thorough, seed));
             out.add_explore(&st);
             if ctx.worker.map(|w| w.0).unwrap_or(0) == 0 {
@@ -771,7 +768,7 @@ pub fn run(ctx: &Ctx) -> Outcome {
         }
         out
     });
-    out.notes.push(format!("deviation bound {bound} for yamux units and {} for mplex units; {} units = {} scripts x {} muxer configurations; exploration of a unit stops at its first violation", bound + 1, units.len(), scs.len(), MUXERS.len()));
+    out.notes.push(format!("deviation bound {bound}; {} units = {} scripts x {} muxer configurations; exploration of a unit stops at its first violation", units.len(), scs.len(), MUXERS.len()));
     if out.get("executions_yamux") == 0 || out.get("executions_mplex") == 0 {
         out.machinery("vacuity: one of the muxers was never executed");
     }
